@@ -9,6 +9,9 @@ PatIn    == (SeqsUpTo({97, 98}, AB_S) \X SeqsUpTo({97, 98}, AB_N))
               \* characters that share bytes at different positions; characters at the ends of each encoded width
               \cup (StrsUpTo({CSQRT, CSQRT2, CCRAB, CCRAB2}, 3) \X StrsUpTo({CSQRT, CSQRT2, CCRAB, CCRAB2}, 2))
               \cup (StrsUpTo(EdgeChars, 2) \X StrsUpTo(EdgeChars, 1))
+              \* arbitrary (non-UTF-8) bytes for the slice::bytes_* functions: ASCII, continuation bytes, a lead byte,
+              \* a never-valid byte - e.g. a continuation byte right after the stripped prefix
+              \cup (SeqsUpTo({97, 128, 191, 195, 255}, 3) \X SeqsUpTo({97, 128, 191, 195, 255}, 2))
 \* long inputs: k repetitions of the pattern at either end for every small k and around 64 / 128 / 256 (a trimmer that
 \* recurses once per repetition, or keeps a count in a narrow integer, only shows there); patterns of 12 / 13 and
 \* 255..257 bytes, also with a near miss in the second-to-last or last-but-three byte
